@@ -134,6 +134,17 @@ CLAIMED["C17"] = dict(
            "horizontal cropping arithmetic and marker placement; panics in renderers are C01's."),
     note=_NOTE, technique="static analysis: call-graph choke-point (who-may-call) + backward value-provenance (taint) rules on MIR, sibling constant agreement")
 
+CLAIMED["C15"] = dict(
+    level=("Static census and guard discipline: every static / thread-local with interior mutability (4 logical items) is in a "
+           "reviewed table and any addition is a violation; the anchor store is mutated only by 7 reviewed functions of its own "
+           "module and reset() clears every field; with_document_scope resets before, constructs a guard (whose Drop resets) before "
+           "the user closure, drops it on every normal path and on the unwind edge; with_anchor_context pushes and guards likewise; "
+           "the fallback cell is written only by its guard, every guard is bound to a named local or the fallback_guard field and "
+           "restores the saved value; no guard type is Clone / Copy and nothing calls mem::forget / ManuallyDrop::new / Box::leak "
+           "(matcher self-checked); user code runs only inside a scope; every iteration over a randomly seeded hash collection is "
+           "order-normalised or order-independent. Not decided: equality of results across call histories (runtime)."),
+    note=_NOTE, technique="static analysis: hidden-state census over rustc's static tables, who-writes rules, guard construction / drop (incl. unwind-edge) dominance on MIR")
+
 NOT_APPLICABLE = {("C%02d" % i): _NB for i in range(1, 21) if ("C%02d" % i) not in CLAIMED}
 
 CLAIMED["C10"] = dict(
@@ -251,5 +262,16 @@ CLAIMED["C17"] = dict(
            "numeric text; the three window computations use the same two lines of context. Declared not applicable and not decided: "
            "horizontal cropping arithmetic and marker placement; panics in renderers are C01's."),
     note=_NOTE, technique="static analysis: call-graph choke-point (who-may-call) + backward value-provenance (taint) rules on MIR, sibling constant agreement")
+
+CLAIMED["C15"] = dict(
+    level=("Static census and guard discipline: every static / thread-local with interior mutability (4 logical items) is in a "
+           "reviewed table and any addition is a violation; the anchor store is mutated only by 7 reviewed functions of its own "
+           "module and reset() clears every field; with_document_scope resets before, constructs a guard (whose Drop resets) before "
+           "the user closure, drops it on every normal path and on the unwind edge; with_anchor_context pushes and guards likewise; "
+           "the fallback cell is written only by its guard, every guard is bound to a named local or the fallback_guard field and "
+           "restores the saved value; no guard type is Clone / Copy and nothing calls mem::forget / ManuallyDrop::new / Box::leak "
+           "(matcher self-checked); user code runs only inside a scope; every iteration over a randomly seeded hash collection is "
+           "order-normalised or order-independent. Not decided: equality of results across call histories (runtime)."),
+    note=_NOTE, technique="static analysis: hidden-state census over rustc's static tables, who-writes rules, guard construction / drop (incl. unwind-edge) dominance on MIR")
 
 NOT_APPLICABLE = {("C%02d" % i): _NB for i in range(1, 21) if ("C%02d" % i) not in CLAIMED}
